@@ -176,15 +176,36 @@ def _unroll_env(node: ast.AST, parents: Dict[int, ast.AST]) -> List[Dict[str, in
     loops = []
     x = parents.get(id(node))
     while x is not None:
-        if isinstance(x, ast.For) and isinstance(x.target, ast.Name) and isinstance(x.iter, ast.Call) and call_name(x.iter) == "range":
-            a = x.iter.args
-            if len(a) == 1 and isinstance(a[0], ast.Constant) and isinstance(a[0].value, int) and a[0].value <= 16:
-                loops.append((x.target.id, a[0].value))
+        if isinstance(x, ast.For) and isinstance(x.target, ast.Name):
+            vals = _const_iteration(x.iter)
+            if vals is not None and len(vals) <= 16:
+                loops.append((x.target.id, vals))
         x = parents.get(id(x))
     envs: List[Dict[str, int]] = [{}]
-    for name, n in reversed(loops):
-        envs = [dict(e, **{name: i}) for e in envs for i in range(n)]
+    for name, vals in reversed(loops):
+        envs = [dict(e, **{name: i}) for e in envs for i in vals]
     return envs
+
+
+def _const_iteration(it: ast.AST) -> Optional[List[int]]:
+    """Values of `range(<constants>)` (one to three arguments, negative steps included), of `reversed(range(..))`, or of a constant tuple / list."""
+    from .decoders import IntEvalError, int_eval
+
+    if isinstance(it, ast.Call) and call_name(it) == "reversed" and len(it.args) == 1:
+        inner = _const_iteration(it.args[0])
+        return list(reversed(inner)) if inner is not None else None
+    if isinstance(it, ast.Call) and call_name(it) == "range" and 1 <= len(it.args) <= 3 and not it.keywords:
+        try:
+            a = [int_eval(x_, {}) for x_ in it.args]
+        except IntEvalError:
+            return None
+        if not all(isinstance(v, int) and not isinstance(v, bool) for v in a) or (len(a) == 3 and a[2] == 0):
+            return None
+        r = range(*a)
+        return list(r) if len(r) <= 64 else None
+    if isinstance(it, (ast.Tuple, ast.List)) and all(isinstance(e, ast.Constant) and isinstance(e.value, int) and not isinstance(e.value, bool) for e in it.elts):
+        return [e.value for e in it.elts]
+    return None
 
 
 def _extraction_root(e: ast.AST) -> Optional[str]:
@@ -356,7 +377,7 @@ def _is_range_loop_var(name: str, node: ast.AST, parents) -> bool:
     x = parents.get(id(node))
     while x is not None:
         if isinstance(x, ast.For) and any(isinstance(t, ast.Name) and t.id == name for t in ast.walk(x.target)):
-            return isinstance(x.iter, ast.Call) and call_name(x.iter) == "range"
+            return (isinstance(x.iter, ast.Call) and call_name(x.iter) == "range") or _const_iteration(x.iter) is not None
         x = parents.get(id(x))
     return False
 
@@ -818,7 +839,7 @@ def _need_modelled(ctx: Ctx, rid: str, dec: str, fn: ast.FunctionDef):
 VALIDATOR_FACTS = {"check_positive": "> 0", "check_zero_or_positive": ">= 0"}
 
 
-@rule("D4", "SAMPLE-COUNT: the number of samples written equals what the header announces, for every admitted option value", ["C18", "C19"], floor=5)
+@rule("D4", "SAMPLE-COUNT: the number of samples written equals what the header announces, for every admitted option value", ["C18", "C19", "C16"], floor=5, default_props=["C18", "C19"])
 def d4(ctx: Ctx):
     D = decoderfacts(ctx)
     for dec in ("hrstoppm", "maxtoppm", "pixtopgm", "mgetoppm", "cm3toppm", "rattoppm"):
@@ -967,7 +988,7 @@ def d4(ctx: Ctx):
                     file=rel,
                     line=call.lineno,
                     facts={"nominal_value": nominal[:3]},
-                    props=["C18", "C16"],
+                    props=["C18", "C16", "C19"],  # also C19: a well-formed (or one-bit damaged) header then yields a short payload and success
                 )
             ctx.ob(key, False, msg, file=rel, line=call.lineno, facts=facts, witness=("an option value violating: " + ", ".join(unmet)) if unmet else "", props=["C18"] if unmet else ["C19"])
         if all_ok:
@@ -1028,6 +1049,15 @@ def d4b(ctx: Ctx):
     lenvar = None
     cand = [n for n in ast.walk(fn) if isinstance(n, ast.Assign) and isinstance(n.targets[0], ast.Name) and n.targets[0].id == rows_p and isinstance(n.value, ast.BinOp)]
     rw = next((n for n in cand if any(isinstance(x, ast.Name) and x.id == cols_p for x in ast.walk(n.value))), None)
+    height_names = {rows_p}
+    if rw is None:
+        # through a local: `hrows = 8 * size // cols` ... `rows = hrows`
+        for n in ast.walk(fn):
+            if isinstance(n, ast.Assign) and isinstance(n.targets[0], ast.Name) and n.targets[0].id == rows_p and isinstance(n.value, ast.Name):
+                d_ = next((a for a in ast.walk(fn) if isinstance(a, ast.Assign) and isinstance(a.targets[0], ast.Name) and a.targets[0].id == n.value.id and isinstance(a.value, ast.BinOp) and any(isinstance(x, ast.Name) and x.id == cols_p for x in ast.walk(a.value))), None)
+                if d_ is not None:
+                    rw = d_
+                    height_names.add(n.value.id)
     ctx.need(rw is not None, "maxtoppm.rows", "derivation of the height from the length field not found")
     others = sorted(names_loaded(rw.value) - {cols_p})
     ctx.need(len(others) == 1, "maxtoppm.rows", f"height is derived from {others}")
@@ -1050,14 +1080,23 @@ def d4b(ctx: Ctx):
         line=rw.lineno,
         witness="" if ok else "a 256x100 MAX file (3200 data bytes)",
     )
-    chk = next((n for n in ast.walk(fn) if isinstance(n, ast.If) and lenvar in names_loaded(n.test) and rows_p in names_loaded(n.test)), None)
+    chk = next((n for n in ast.walk(fn) if isinstance(n, ast.If) and lenvar in names_loaded(n.test) and height_names & names_loaded(n.test)), None)
     okc = False
     if chk is not None and isinstance(chk.test, ast.Compare) and isinstance(chk.test.ops[0], ast.NotEq):
         a, b = chk.test.left, chk.test.comparators[0]
         for x, y in ((a, b), (b, a)):
             if isinstance(y, ast.Name) and y.id == lenvar and isinstance(x, ast.BinOp) and isinstance(x.op, ast.FloorDiv):
-                okc = poly_eval(x.left, {}) == Poly.atom(cols_p) * Poly.atom(rows_p) and poly_eval(x.right, {}).is_const() == 8
+                okc = any(poly_eval(x.left, {}) == Poly.atom(cols_p) * Poly.atom(h_) for h_ in height_names) and poly_eval(x.right, {}).is_const() == 8
     ctx.ob("maxtoppm:length-consistency", okc, "" if okc else "the test that the derived height reproduces the length field is gone or changed", file=rel, line=chk.lineno if chk else fn.lineno)
+    # the length field only matters when the height is derived from it: with a height given by -r the refusal must not fire
+    if chk is not None and any(isinstance(x, ast.Return) for x in ast.walk(chk)):
+        par_ = {id(c): p_ for p_ in ast.walk(fn) for c in ast.iter_child_nodes(p_)}
+        g_, under = par_.get(id(chk)), False
+        while g_ is not None and g_ is not fn:
+            if isinstance(g_, ast.If) and rows_p in names_loaded(g_.test) and lenvar not in names_loaded(g_.test):
+                under = True
+            g_ = par_.get(id(g_))
+        ctx.ob("maxtoppm:length-check-when-derived", under, "" if under else f"the refusal `if {unparse(chk.test)}: ... return` is not limited to the case where `{rows_p}` is derived from the length field: with an explicit height (-r) and a width that does not divide the stored length the picture is refused and the output removed, although the options dictate its size", file=rel, line=chk.lineno, props=["C18"])
     # newsroom header: cols = byte0 * 8, rows = byte1
     news_p = fn.args.args[3].arg
     nr = [n for n in ast.walk(fn) if isinstance(n, ast.If) and unparse(n.test) == news_p]
@@ -1070,6 +1109,21 @@ def d4b(ctx: Ctx):
 
 # ---------------------------------------------------------------------------
 # D5 READ-DISCIPLINE
+
+
+def _defaulted_read(call: ast.Call, parents) -> Optional[ast.AST]:
+    """`f.read(n) or <default>` / `x if x else <default>` around a read (through the string converters): the expression, else None."""
+    p, child = parents.get(id(call)), call
+    hops = 0
+    while p is not None and hops < 4:
+        if isinstance(p, ast.BoolOp) and isinstance(p.op, ast.Or) and p.values and p.values[0] is child and len(p.values) > 1:
+            return p
+        if isinstance(p, ast.Call) and call_name(p) in ("iotostr", "iotobytes", "bytearray", "bytes"):
+            p, child = parents.get(id(p)), p
+            hops += 1
+            continue
+        break
+    return None
 
 
 def _is_strict_read(call: ast.Call, parents) -> bool:
@@ -1111,6 +1165,10 @@ def d5(ctx: Ctx):
             n_reads += 1
             size = unparse(n.args[0]) if n.args else "<all>"
             key = f"{dec}.read({size})@{_ordinal_read(fn, n)}"
+            dflt = _defaulted_read(n, parents)
+            if dflt is not None:
+                ctx.ob(key, False, f"`{unparse(dflt)}` replaces the empty result of a read at end of file by a value: a truncated file is decoded as if it contained that byte (a terminator, a zero count) and the short picture is reported as success", file=rel, line=n.lineno, witness="a file cut at this read")
+                continue
             if _is_strict_read(n, parents):
                 ctx.ob(key, True, file=rel, line=n.lineno, facts={"kind": "strict"})
                 continue
@@ -1293,6 +1351,23 @@ def d6(ctx: Ctx):
                                 file=rel,
                                 line=i_.lineno,
                             )
+            # the same accounting written per run: `for _ in range(n): write ...` followed by `counter -= n` in the while body.
+            # Nothing can stop the repeat at the end of the picture in this form: it is the unguarded repeat loop.
+            for k_, st in enumerate(wl.body):
+                if isinstance(st, ast.AugAssign) and isinstance(st.op, ast.Sub) and isinstance(st.target, ast.Name) and isinstance(st.value, ast.Name):
+                    reps = [f_ for f_ in wl.body[:k_] if isinstance(f_, ast.For) and isinstance(f_.iter, ast.Call) and call_name(f_.iter) == "range" and len(f_.iter.args) == 1 and isinstance(f_.iter.args[0], ast.Name) and f_.iter.args[0].id == st.value.id and any(isinstance(c, ast.Call) and call_name(c) not in ("range", "ord", "iotostr") for c in ast.walk(f_))]
+                    if reps and st.target.id in names_loaded(wl.test) and not any(_decrement_target(x) == st.target.id for f_ in reps for x in ast.walk(f_)):
+                        found += 1
+                        clamped = any(isinstance(a_, ast.Assign) and isinstance(a_.targets[0], ast.Name) and a_.targets[0].id == st.value.id and isinstance(a_.value, ast.Call) and call_name(a_.value) == "min" and st.target.id in names_loaded(a_.value) for a_ in wl.body[:k_])
+                        ctx.ob(
+                            f"{dec}.repeat-guard",
+                            clamped,
+                            "" if clamped else f"the repeat loop writes `{st.value.id}` samples and only then takes them off `{st.target.id}`: a run longer than the samples left writes past the announced image size",
+                            file=rel,
+                            line=reps[0].lineno,
+                            witness="" if clamped else "a repeat count larger than the remaining pixel count",
+                            rule="D6",
+                        )
     ctx.need(found >= 2, "counters", f"only {found} remaining-sample counters found (expected RAT and MGE)")
 
 
@@ -1952,6 +2027,8 @@ def d15(ctx: Ctx):
                 mult = it.args[0].value
         if isinstance(st, ast.Assign) and isinstance(st.targets[0], ast.Name) and mult == 1 and size == 1:
             offsets[st.targets[0].id] = off  # the latest single-byte read a name holds
+        if isinstance(st, ast.If) and mult == 1 and size == 1:
+            offsets[f"<test@{id(st)}>"] = off  # a flag byte tested where it is read
         off += size * mult
     # roles
     tables64 = {t.targets[0].id for t in ast.walk(fn) if isinstance(t, ast.Assign) and isinstance(t.targets[0], ast.Name) and isinstance(t.value, ast.List) and len(t.value.elts) == 64}
@@ -1960,6 +2037,8 @@ def d15(ctx: Ctx):
         if not isinstance(n, ast.If):
             continue
         tv = [x for x in names_loaded(n.test) if x in offsets]
+        if f"<test@{id(n)}>" in offsets:
+            tv = [f"<test@{id(n)}>"]
         if len(tv) != 1:
             continue
         if any(isinstance(s_, ast.Subscript) and isinstance(s_.value, ast.Name) and s_.value.id in tables64 for b in n.body + n.orelse for s_ in ast.walk(b)):
@@ -2095,3 +2174,69 @@ def d18(ctx: Ctx):
                     ok = len(tot) <= 1
                     ctx.ob(key, ok, "" if ok else f"the branch taken when `{unparse(st.test)}` is {'true' if arm_name == 'then' else 'false'} consumes {sorted(tot)} bytes depending on the data before it reaches the repeat: a group of this kind has one fixed layout (count byte, value byte); the shorter path re-reads part of the group as the next group", file=rel, line=st.lineno)
     ctx.need(n_sites >= 1, "decoders", "no run-length branch that reads group bytes found (expected RAT's escape branch)")
+
+
+# ---------------------------------------------------------------------------
+# D19 FLAG-BITS
+
+
+@rule("D19", "FLAG-BITS: a header byte from which single bits are extracted is a set of independent flags; it is never compared as a whole with a non-zero constant (the other flags would have to be clear for the test to hold)", ["C16", "C18", "C19"], floor=1)
+def d19(ctx: Ctx):
+    D = decoderfacts(ctx)
+    n = 0
+    for dec in ("cm3toppm", "mgetoppm", "maxtoppm", "hrstoppm", "rattoppm", "pixtopgm"):
+        fn = D.fn(dec, "convert")
+        rel = DECODERS[dec]
+        own = [x for x in walk_no_nested(fn)]
+        assigns: Dict[str, List[ast.Assign]] = {}
+        for a in own:
+            if isinstance(a, ast.Assign) and len(a.targets) == 1 and isinstance(a.targets[0], ast.Name):
+                assigns.setdefault(a.targets[0].id, []).append(a)
+        for name, defs in sorted(assigns.items()):
+            if len(defs) != 1 or not any(isinstance(c, ast.Call) and call_name(c) == "read" for c in ast.walk(defs[0].value)):
+                continue
+            bits = sorted({c.args[1].value for c in ast.walk(fn) if isinstance(c, ast.Call) and call_name(c) == "getbit" and len(c.args) == 2 and isinstance(c.args[0], ast.Name) and c.args[0].id == name and isinstance(c.args[1], ast.Constant)})
+            if not bits:
+                continue
+            n += 1
+            whole = [c for c in ast.walk(fn) if isinstance(c, ast.Compare) and len(c.ops) == 1 and isinstance(c.ops[0], (ast.Eq, ast.NotEq)) and isinstance(c.left, ast.Name) and c.left.id == name and isinstance(c.comparators[0], ast.Constant) and isinstance(c.comparators[0].value, int) and c.comparators[0].value != 0]
+            ok = not whole
+            ctx.ob(f"{dec}.{name}", ok, "" if ok else f"`{unparse(whole[0])}` compares the whole flag byte `{name}` although its bits {bits} are independent flags (read with getbit elsewhere): the test fails as soon as another flag is set - e.g. a two-page picture is then taken to have / not to have the optional block, and the decoder loses its place in the file", file=rel, line=whole[0].lineno if whole else defs[0].lineno)
+    ctx.need(n >= 1, "decoders", "no header byte with single-bit flags found (expected CM3's picture-type byte)")
+
+
+# ---------------------------------------------------------------------------
+# D20 PAGE-HEADER
+
+
+@rule("D20", "PAGE-HEADER: a picture stored as one or two pages (a header bit selects) carries a line count in front of every page: the count that bounds the line loop is read inside the page loop", ["C17", "C16", "C18"], floor=1)
+def d20(ctx: Ctx):
+    D = decoderfacts(ctx)
+    fn = D.fn("cm3toppm", "convert")
+    rel = DECODERS["cm3toppm"]
+    pages = [n for n in walk_no_nested(fn) if isinstance(n, ast.For) and isinstance(n.iter, ast.Call) and call_name(n.iter) == "range" and any(isinstance(c, ast.Call) and call_name(c) == "getbit" for a in n.iter.args for c in ast.walk(a))]
+    if not pages:
+        # the page count may sit in a local: `pages = getbit(pictyp, 7) + 1`
+        for n in walk_no_nested(fn):
+            if isinstance(n, ast.For) and isinstance(n.iter, ast.Call) and call_name(n.iter) == "range" and len(n.iter.args) == 1 and isinstance(n.iter.args[0], ast.Name):
+                d_ = [a for a in walk_no_nested(fn) if isinstance(a, ast.Assign) and isinstance(a.targets[0], ast.Name) and a.targets[0].id == n.iter.args[0].id]
+                if len(d_) == 1 and any(isinstance(c, ast.Call) and call_name(c) == "getbit" for c in ast.walk(d_[0].value)):
+                    pages.append(n)
+    if len(pages) != 1:
+        ctx.undecided("cm3toppm.page-loop", f"{len(pages)} loops over a header-bit page count found", file=rel, line=fn.lineno)
+        return
+    pl = pages[0]
+    inner = [n for n in ast.walk(pl) if isinstance(n, ast.For) and n is not pl and isinstance(n.iter, ast.Call) and call_name(n.iter) == "range" and len(n.iter.args) == 1 and isinstance(n.iter.args[0], ast.Name)]
+    bounded = []
+    for il in inner:
+        nm = il.iter.args[0].id
+        defs = [a for a in walk_no_nested(fn) if isinstance(a, ast.Assign) and isinstance(a.targets[0], ast.Name) and a.targets[0].id == nm and any(isinstance(c, ast.Call) and call_name(c) == "read" for c in ast.walk(a.value))]
+        if defs:
+            bounded.append((il, nm, defs))
+    if not bounded:
+        ctx.undecided("cm3toppm.page-loop", "no line loop bounded by a count read from the file found inside the page loop", file=rel, line=pl.lineno)
+        return
+    for il, nm, defs in bounded:
+        inside = [d_ for d_ in defs if any(x is d_ for x in ast.walk(pl))]
+        ok = bool(inside) and len(inside) == len(defs)
+        ctx.ob(f"cm3toppm.page-loop:{nm}", ok, "" if ok else f"the line count `{nm}` that bounds the line loop (line {il.lineno}) is read at line {defs[0].lineno}, outside the page loop (line {pl.lineno}): the count byte of the second page stays in the stream and is decoded as a line control byte, every later byte is out of step", file=rel, line=defs[0].lineno)
